@@ -1045,6 +1045,47 @@ def _r7(model, rep, RID="C05.R7"):
                           f"the loop over `{lp.iter.id}` no longer analyses the import statements of a matched module before its members are "
                           f"read: a name that the module re-exports (`from core import f` inside it) is found only if run() happened to "
                           f"visit that module earlier -- binding depends on unit order, i.e. on file names")
+    # the kind the guards test is a kind unit nodes are created with, and the sibling guards agree
+    guard_kinds: Dict[int, Set[str]] = {}
+    for i, lp in enumerate(loops):
+        v = lp.target.id
+        for c in ast.walk(lp):
+            if isinstance(c, ast.Call) and call_name(c) == "self.analyze_unit_import_stmts":
+                enc_ = enclosing_map(lp)
+                cur = c
+                while id(cur) in enc_:
+                    cur = enc_[id(cur)]
+                    if isinstance(cur, ast.If):
+                        for t in ast.walk(cur.test):
+                            if isinstance(t, ast.Compare) and len(t.ops) == 1 and isinstance(t.ops[0], ast.Eq) and any(
+                                    isinstance(x, ast.Attribute) and x.attr == "symbol_type" for x in (t.left, t.comparators[0])):
+                                other = t.comparators[0] if (isinstance(t.left, ast.Attribute) and t.left.attr == "symbol_type") else t.left
+                                if _attr_tail(other):
+                                    guard_kinds.setdefault(i, set()).add(_attr_tail(other))
+    produced_kinds: Set[str] = set()
+    for rel_ in ("preparation.py", IH):
+        for d in ast.walk(model.module(rel_).tree):
+            if isinstance(d, ast.Dict):
+                for k, v_ in zip(d.keys, d.values):
+                    if isinstance(k, ast.Constant) and k.value == "symbol_type" and _attr_tail(v_):
+                        produced_kinds.add(_attr_tail(v_))
+            if isinstance(d, ast.Call):
+                for kw_ in d.keywords:
+                    if kw_.arg == "symbol_type" and _attr_tail(kw_.value):
+                        produced_kinds.add(_attr_tail(kw_.value))
+    key = f"{where}::the on-demand analysis is triggered for the kind unit nodes are created with"
+    if guard_kinds:
+        allk = set().union(*guard_kinds.values())
+        dead = sorted(k for k in allk if k not in produced_kinds)
+        disagree = len({frozenset(v_) for v_ in guard_kinds.values()}) > 1
+        if dead or disagree:
+            rep.violation(RID, key, IH, loops[0].lineno,
+                          "the guards of the on-demand import analysis test " + ", ".join(f"loop #{i}: {sorted(v_)}" for i, v_ in sorted(guard_kinds.items()))
+                          + (f"; no node of the import graph is ever created with kind {dead} (kinds created: {sorted(produced_kinds)})" if dead else "")
+                          + ": in that branch a matched module's own imports are never analysed on demand, so a re-exported name resolves only when "
+                            "the re-exporting unit happened to be processed earlier -- the call edge through it depends on file names")
+        else:
+            rep.holds(RID, key, IH, loops[0].lineno, f"every guard tests {sorted(allk)}, which preparation.py creates unit nodes with")
     # idempotence / termination of the on-demand analysis
     g = cls.methods.get("analyze_unit_import_stmts")
     key = f"{IH}::ImportHierarchy.analyze_unit_import_stmts::once per unit"
